@@ -1,7 +1,8 @@
 #!/bin/bash
-# MANIFEST.setup_cmd — offline build of the verification harness from files on disk only.
+# MANIFEST.setup_cmd — offline build of the verification harnesses from files on disk only.
 set -e
 cd "$(dirname "$0")"
 export CARGO_NET_OFFLINE=true
-(cd harness && cargo build --release 2>&1 | tail -3)
+(cd harness && cargo build --release 2>&1 | tail -2)
+(cd harness-tokio && cargo build --release 2>&1 | tail -2)
 echo "setup done"
